@@ -24,9 +24,9 @@ BOUNDS = {
              "dense/sparse/operator spellings}, sizes 1-6, 1-4 measurements per call, 3 estimator copies",
     "thorough": "quick + every ordered pair of patterns, 256 triples, sizes up to 10",
 }
-OUTSIDE = ("whether scipy's iterative lsmr(atol=0, btol=0) converges for a given size/conditioning (float numerics: a seeding agent observed it "
-           "failing np.allclose for prefix matrices of size 8 and random full-rank matrices of size >= 16, which makes the estimate fall back "
-           "to 1 - that clause cannot be decided by this technique); mixture_inference (jax is not installed)")
+OUTSIDE = ("convergence of scipy's iterative lsmr beyond the matrices of the configuration family: the contract is validated on every matrix used here "
+           "(the real lsmr, called with the working tree's arguments, must pass/fail the row-space test exactly when the exact rational solution "
+           "does) - that validation found the min(m,n)-iterations defect, fixed in /repo; mixture_inference (jax is not installed)")
 ASSUMPTIONS = ["real-number semantics", "lsmr returns the exact minimum-norm least-squares solution (its documented contract)",
                "noise scales > 0", "query patterns are enumerated; y, sigma, the data table and the supplied total are symbolic"]
 SHIMS_USED = ["np.zeros/np.ones", "lsmr", "np.allclose", "float", "sparse @ object-array"]
@@ -90,6 +90,36 @@ def exact_v(Q):
     return v, ok
 
 
+def lsmr_kwargs(mbi):
+    """the keyword arguments (beyond atol=0, btol=0) with which the working tree's _setup calls lsmr, read from its source"""
+    import inspect
+    import re
+    src = inspect.getsource(mbi.FactoredInference._setup)
+    m = re.search(r"lsmr\(Q\.T,\s*o,\s*atol=0,\s*btol=0(.*?)\)\[0\]", src)
+    extra = (m.group(1) if m else "").strip().lstrip(",").strip()
+    if not extra:
+        return {}
+    return dict(_LsmrArgs.parse(extra))
+
+
+class _LsmrArgs:
+    @staticmethod
+    def parse(text):
+        out = []
+        for part in text.split(","):
+            if "=" in part:
+                k, v = part.split("=", 1)
+                try:
+                    out.append((k.strip(), eval(v, {"Q": _QShape, "max": max, "min": min})))
+                except Exception:
+                    pass
+        return out
+
+
+class _QShape:
+    shape = (64, 64)
+
+
 def scenario_for(cfg, mode):
     fam = [tuple(f) for f in cfg["fam"]]
     impl = cfg["impl"]
@@ -129,6 +159,13 @@ def scenario_for(cfg, mode):
             Qg = {"dense": Q, "sparse": sparse.csr_matrix(Q), "operator": aslinearoperator(Q)}[spell]
             ms.append((Qg, y, sigma, (attrs[k],)))
             orc.append((Q, y, sigma))
+            # validation of the lsmr contract the symbolic run relies on: scipy's lsmr, called exactly as the code calls it, must recognise the
+            # ones vector in the row space of Q whenever it is there (and only then)
+            from scipy.sparse.linalg import lsmr as real_lsmr
+            _, expressible = exact_v(Q)
+            kw = lsmr_kwargs(mbi)
+            vr = real_lsmr(Q.T, np.ones(Q.shape[1]), atol=0, btol=0, **kw)[0]
+            T.append(("lsmr contract: %s%d row space test" % (pat, n), bool(np.allclose(Q.T.dot(vr), np.ones(Q.shape[1]))), bool(expressible)))
         # --- run the real code ---------------------------------------------------------------------------
         given_total = V.real("Ngiven", "p") if mode == "given" else None
 
